@@ -1,10 +1,16 @@
 #!/bin/sh
-# usage: try_seed.sh <patch.diff> <PROP> [extra check args]   — applies the patch to /repo, runs the check, reverts.
-patch="$1"; prop="$2"; shift 2
-cd /repo || exit 3
-git apply --check "$patch" || { echo "patch does not apply"; exit 3; }
-git apply "$patch"
-cd /verif && ./check "$prop" "$@"; rc=$?
-git -C /repo checkout -- . 
-echo "try_seed rc=$rc"
+# usage: try_seed.sh <seed-dir-name e.g. C27-A> <PROP> [extra check args]
+# Runs the check against a scratch copy of /repo's working tree with the seeded patch applied
+# (equivalent to `git -C /repo apply`, check, `git -C /repo checkout -- .` but leaves /repo untouched so
+# that other checks can run concurrently).  Evidence/replays of the seeded run go to a scratch dir.
+seed="$1"; prop="$2"; shift 2
+W=/var/tmp/turdb-verif/seedrun-$seed-$$
+mkdir -p "$W" && rsync -a --exclude /target --exclude /.git /repo/ "$W/repo/" || exit 3
+( cd "$W/repo" && patch -p1 -s --no-backup-if-mismatch < /verif/seeded/$seed/patch.diff ) || { echo "SEED DOES NOT APPLY on current tree"; rm -rf "$W"; exit 3; }
+cd /verif && VERIF_REPO="$W/repo" VERIF_EVIDENCE_DIR="$W/evidence" VERIF_REPLAY_DIR="$W/replays" ./check "$prop" "$@"; rc=$?
+mkdir -p /verif/seeded/$seed/detection && cp "$W/evidence/$prop.json" /verif/seeded/$seed/detection/evidence.json 2>/dev/null
+ls "$W/replays" 2>/dev/null | head -3
+cp "$W"/replays/* /verif/seeded/$seed/detection/ 2>/dev/null
+rm -rf "$W"
+echo "try_seed $seed $prop rc=$rc"
 exit $rc
